@@ -32,6 +32,16 @@ def main(payload):
                 x = bytes([c["b"]])
             elif k == "str":
                 x = chr(c["cp"])
+            elif k == "inf":
+                x = float("inf") * c["sign"]
+            elif k == "nan":
+                x = float("nan")
+            elif k == "byteslen":
+                x = b"ab\0cd"[:c["n"]]
+            elif k == "strlen":
+                x = u"ab\u1234\U00012345c"[:c["n"]]
+            elif k == "other":
+                x = {"none": None, "list": [1], "object": object()}[c["what"]]
             elif k == "ptr":
                 x = ffi.cast(c.get("ptype", "void *"), int(c["addr"]))
                 addr = int(c["addr"])
